@@ -288,6 +288,11 @@ func (h *vHandler) verifAtomicNote(ev vEvent) {
 			verifrt.Assert(!h.finished[ev.prev], "a stage is reported finished at most once")
 			verifrt.Assert(!h.failed[ev.prev], "a stage is never reported both impossible and finished")
 			h.finished[ev.prev] = true
+			if h.declared != nil && len(h.declared[ev.prev]) > 0 {
+				// the run loop settles the alternatives of a stage's outputs only when the stage finishes
+				// with an output (or is declared impossible): finishing without one leaves them pending
+				verifrt.Assert(ev.hasOut, "a stage that declares outputs finishes with one of them: "+ev.prev)
+			}
 			if ev.hasOut && h.declared != nil {
 				verifrt.Assert(h.declared[ev.prev][ev.out], "every reported stage output is declared by the lifecycle")
 				if os := h.schemas[ev.prev+"."+ev.out]; os != nil && h.checkShape && ev.prev != "outputs" {
